@@ -14,7 +14,7 @@ from vlib import cb, cl, cn, co, cp, cq, cz, coq_eval_bools, coq_eval_print, exc
 warnings.filterwarnings("ignore")
 torch.set_default_dtype(torch.float32)
 F64 = torch.float64
-IMPORTS = "From PV Require Import C19.Model C19.Spec.\nLocal Open Scope Q_scope.\n"
+IMPORTS = "From PV Require Import C19.Model C19.Relaxed C19.Combinatorics C19.Spec.\n"
 TOL = Fr(1, 10 ** 8)
 CORR = "corr:C19:"
 
@@ -594,7 +594,7 @@ def imh_model_term(case, res):
 # =========================================================================================
 FXS = 2 ** 64
 TOLFX = round(FXS / 10 ** 9)
-IMPORTS_FX = "From PV Require Import C19.Relaxed C19.Combinatorics.\n"
+IMPORTS_FX = IMPORTS
 
 
 def fx(x):
@@ -747,6 +747,231 @@ def gen_dist(rng):
 
 
 # =========================================================================================
+# family "comb": _combinatorics.py against PV.C19.Combinatorics
+# =========================================================================================
+def clz_(xs):
+    return cl([cz(x) for x in xs])
+
+
+def cllz(xss):
+    return cl([clz_(xs) for xs in xss])
+
+
+def _ints(t):
+    return [[int(round(float(x))) for x in row] for row in t]
+
+
+def comb_run_impl(case):
+    import pydrobert.torch.functional as PF
+    from pydrobert.torch import distributions as PD
+
+    op = case["op"]
+    res = {"exc": None}
+    try:
+        if op == "srswor":
+            B, out = len(case["total"]), case["out_size"]
+            us = torch.tensor(case["us"], dtype=F64) / 64  # [steps, B]
+            state = {"t": 0}
+
+            def fake_bernoulli(p, *a, **k):
+                ok = bool(((p >= 0) & (p <= 1)).all())
+                if not ok:
+                    raise RuntimeError("bernoulli: p outside [0, 1]")
+                b = (us[state["t"]].reshape(p.shape) < p).to(p.dtype)
+                state["t"] += 1
+                return b
+
+            with mock.patch.object(torch, "bernoulli", fake_bernoulli):
+                if case.get("via") == "dist":
+                    d = PD.SimpleRandomSamplingWithoutReplacement(torch.tensor(case["given"]), torch.tensor(case["total"]),
+                                                                  out, validate_args=False)
+                    b = d.sample()
+                else:
+                    b = PF.simple_random_sampling_without_replacement(torch.tensor(case["total"]), torch.tensor(case["given"]), out)
+            res["out"] = _ints(b)
+            res["steps"] = state["t"]
+        elif op == "binom":
+            r = PF.binomial_coefficient(torch.tensor(case["lens"]), torch.tensor(case["cnts"]))
+            res["out"] = [int(x) for x in r]
+        elif op == "vocab":
+            r = PF.enumerate_vocab_sequences(case["len"], case["V"])
+            res["out"] = _ints(r)
+            res["shape"] = list(r.shape)
+        elif op == "binary":
+            r = PF.enumerate_binary_sequences(case["len"])
+            res["out"] = _ints(r)
+        elif op == "card_int":
+            r = PF.enumerate_binary_sequences_with_cardinality(case["len"], case["cnt"])
+            res["out"] = _ints(r)
+        elif op == "card_tensor":
+            sup, binom = PF.enumerate_binary_sequences_with_cardinality(torch.tensor(case["lens"]), torch.tensor(case["cnts"]))
+            res["binom"] = [int(x) for x in binom]
+            res["out"] = [_ints(sup[j][:res["binom"][j]]) for j in range(len(case["lens"]))]
+            res["shape"] = list(sup.shape)
+        elif op == "srswor_dist":
+            T, L, O = case["total"], case["given"], case["out_size"]
+            d = PD.SimpleRandomSamplingWithoutReplacement(L, T, O)
+            sup = d.enumerate_support()
+            res["support"] = _ints(sup)
+            res["probs"] = [float(x) for x in d.log_prob(sup).exp().reshape(-1)]
+            res["check_support"] = [bool(x) for x in d.support.check(sup).reshape(-1)]
+            torch.manual_seed(case["seed"])
+            smp = d.sample([case["nsamp"]])
+            res["samples"] = _ints(smp)
+            res["check_samples"] = [bool(x) for x in d.support.check(smp).reshape(-1)]
+            bad = torch.tensor(case["bad"], dtype=torch.float)
+            res["check_bad"] = [bool(x) for x in d.support.check(bad).reshape(-1)] if len(case["bad"]) else []
+        else:
+            raise ValueError(op)
+    except Exception as e:
+        res["exc"] = exc_kind(e) + ": " + str(e)[:160]
+    return res
+
+
+def _exc_is(res, kind):
+    return res["exc"] is not None and res["exc"].startswith(kind)
+
+
+def comb_terms(case, res):
+    """(model terms, spec terms on the implementation output, python-side relations)"""
+    op = case["op"]
+    mt, st, rel = [], [], []
+    if res["exc"] is not None and not _exc_is(res, "RuntimeError"):
+        return ["false"], ["false"], [("unexpected exception " + res["exc"], False)]
+    if op == "srswor":
+        B, out = len(case["total"]), case["out_size"]
+        exp_err = any(g > t for g, t in zip(case["given"], case["total"])) or out < max(case["total"])
+        if res["exc"] is not None:
+            mt.append(cb(exp_err))
+            st.append(cb(exp_err))
+            return mt, st, rel
+        if exp_err:
+            return ["false"], ["false"], rel
+        for j in range(B):
+            us = clq([Fr(case["us"][t][j], 64) for t in range(out)])
+            mt.append(f"opt_eqb zlist_eqb (srswor {cz(case['total'][j])} {cz(case['given'][j])} {cn(out)} {us}) "
+                      f"(Some {clz_(res['out'][j])})")
+            st.append(f"srswor_okb {cz(case['total'][j])} {cz(case['given'][j])} {cn(out)} {clz_(res['out'][j])}")
+        rel.append(("one bernoulli call per step", res["steps"] == out))
+    elif op == "binom":
+        impl = "None" if res["exc"] is not None else f"(Some {clz_(res['out'])})"
+        mt.append(f"opt_eqb zlist_eqb (binomial_coefficient {clz_(case['lens'])} {clz_(case['cnts'])}) {impl}")
+        if res["exc"] is None:
+            rel.append(("binomial == math.comb", res["out"] == [math.comb(n, k) for n, k in zip(case["lens"], case["cnts"])]))
+        else:
+            rel.append(("raises only on negative input", any(x < 0 for x in case["lens"] + case["cnts"])))
+    elif op in ("vocab", "binary", "card_int"):
+        impl = "None" if res["exc"] is not None else f"(Some {cllz(res['out'])})"
+        if op == "vocab":
+            mt.append(f"opt_eqb zll_eqb (enumerate_vocab_sequences {cz(case['len'])} {cz(case['V'])}) {impl}")
+            if res["exc"] is None:
+                st.append(f"enum_vocab_okb {cz(case['len'])} {cz(case['V'])} {cllz(res['out'])}")
+                rel.append(("shape", res["shape"] == [case["V"] ** case["len"], case["len"]]))
+        elif op == "binary":
+            mt.append(f"opt_eqb zll_eqb (enumerate_binary_sequences {cz(case['len'])}) {impl}")
+            if res["exc"] is None:
+                st.append(f"enum_vocab_okb {cz(case['len'])} 2%Z {cllz(res['out'])}")
+        else:
+            mt.append(f"opt_eqb zll_eqb (enumerate_card_int {cz(case['len'])} {cz(case['cnt'])}) {impl}")
+            if res["exc"] is None:
+                st.append(f"enum_card_okb {cz(case['len'])} {cz(case['cnt'])} {cn(case['len'])} {cllz(res['out'])}")
+    elif op == "card_tensor":
+        if res["exc"] is not None:
+            return ["false"], ["false"], rel
+        length_ = max(case["lens"])
+        for j, (n, k) in enumerate(zip(case["lens"], case["cnts"])):
+            mt.append(f"(let r := enumerate_card_tensor_elem {cz(length_)} {cz(n)} {cz(k)} in "
+                      f"zll_eqb (fst r) {cllz(res['out'][j])} && Z.eqb (snd r) {cz(res['binom'][j])})")
+            # valid part: rows of length n with k ones, padded to length_
+            st.append(f"enum_card_okb {cz(n)} {cz(k)} {cn(length_)} {cllz(res['out'][j])}")
+        rel.append(("shape", res["shape"] == [len(case["lens"]), max(res["binom"]), length_]))
+    elif op == "srswor_dist":
+        if res["exc"] is not None:
+            return ["false"], ["false"], rel
+        T, L = case["total"], case["given"]
+        O = case["out_size"] if case["out_size"] is not None else T
+        mt.append(f"opt_eqb zll_eqb (srswor_support {cz(T)} {cz(L)} {cn(O)}) (Some {cllz(res['support'])})")
+        pv = Fr(math.factorial(L) * math.factorial(T - L), math.factorial(T))
+        mt.append(f"Qeq_bool (srswor_prob_value {cz(T)} {cz(L)}) {cq(pv)}")
+        st.append(f"enum_card_okb {cz(T)} {cz(L)} {cn(O)} {cllz(res['support'])}")
+        for row, okc in zip(res["samples"], res["check_samples"]):
+            mt.append(f"Bool.eqb (card_check {cz(L)} (Some {cz(T)}) {clz_(row)}) {cb(okc)}")
+            st.append(f"srswor_okb {cz(T)} {cz(L)} {cn(O)} {clz_(row)}")
+        for row, okc in zip(case["bad"], res["check_bad"]):
+            mt.append(f"Bool.eqb (card_check {cz(L)} (Some {cz(T)}) {clz_(row)}) {cb(okc)}")
+        rel.append(("probabilities are 1 / C(T, L) (float32 log-factorials: 1e-5)",
+                    all(abs(p - float(pv)) <= 1e-5 * float(pv) for p in res["probs"])))
+        rel.append(("probabilities over the enumerated support sum to one", abs(sum(res["probs"]) - 1) <= 1e-5))
+        rel.append(("support.check accepts the enumerated support and the samples",
+                    all(res["check_support"]) and all(res["check_samples"])))
+    return mt, st, rel
+
+
+def gen_comb(rng, op=None):
+    op = op or rng.choice(["srswor", "srswor", "srswor", "binom", "binom", "vocab", "binary", "card_int", "card_tensor",
+                           "srswor_dist", "srswor_dist"])
+    case = {"fam": "comb", "op": op}
+    if op == "srswor":
+        B = rng.choice([1, 1, 2, 3])
+        total = [rng.randint(0, 6) for _ in range(B)]
+        given = [rng.randint(0, t) for t in total]
+        out = max(total) + rng.choice([0, 0, 1, 2])
+        if rng.random() < 0.08:
+            j = rng.randrange(B)
+            given[j] = total[j] + 1  # malformed: RuntimeError
+        elif rng.random() < 0.06 and max(total) > 0:
+            out = max(total) - 1  # malformed: RuntimeError
+        if out == 0:
+            out = 1  # (total = 0 with out_size = 0: see report, reshape of an empty tensor)
+        case.update(total=total, given=given, out_size=out, via=rng.choice(["func", "func", "dist"]),
+                    us=[[rng.randint(0, 63) for _ in range(B)] for _ in range(max(out, 1))])
+        if case["via"] == "dist" and (any(g > t for g, t in zip(given, total)) or out < max(total)):
+            case["via"] = "func"
+    elif op == "binom":
+        B = rng.randint(1, 4)
+        big = rng.random() < 0.5
+        hi = rng.choice([21, 25, 40]) if big else rng.choice([0, 1, 5, 12, 20])
+        lens = [rng.randint(0, hi) for _ in range(B)]
+        if big:
+            lens[rng.randrange(B)] = hi
+        elif rng.random() < 0.3:
+            lens[rng.randrange(B)] = 20
+        cnts = [rng.choice([0, n, rng.randint(0, max(n, 1)), rng.randint(0, n + 3)]) for n in lens]
+        if rng.random() < 0.06:
+            (lens if rng.random() < 0.5 else cnts)[rng.randrange(B)] = -rng.randint(1, 3)
+        case.update(lens=lens, cnts=cnts)
+    elif op == "vocab":
+        V = rng.choice([1, 2, 3, 4])
+        n = rng.randint(0, 4 if V <= 3 else 3)
+        if rng.random() < 0.08:
+            V = rng.choice([0, -1])
+        elif rng.random() < 0.06:
+            n = -1
+        case.update(len=n, V=V)
+    elif op == "binary":
+        case.update(len=rng.choice([-1, 0, 1, 2, 3, 4, 5, 6]))
+    elif op == "card_int":
+        n = rng.randint(0, 6)
+        case.update(len=n, cnt=rng.choice([0, n, rng.randint(0, n), n + 1]))
+    elif op == "card_tensor":
+        B = rng.randint(1, 4)
+        lens = [rng.randint(0, 5) for _ in range(B)]
+        case.update(lens=lens, cnts=[rng.choice([0, n, rng.randint(0, n), n + 1]) for n in lens])
+    else:
+        T = rng.randint(0, 6)
+        L = rng.randint(0, T)
+        O = rng.choice([None, None, T + 1, T + 2])
+        if T == 0 and O is None:
+            O = 1
+        OO = T if O is None else O
+        bad = []
+        for _ in range(rng.randint(0, 3)):
+            bad.append([rng.choice([0, 0, 1, 1, 2]) for _ in range(OO)])
+        case.update(total=T, given=L, out_size=O, seed=rng.randint(0, 2 ** 31 - 1), nsamp=rng.choice([1, 4, 16]), bad=bad)
+    return case
+
+
+# =========================================================================================
 # generators
 # =========================================================================================
 def _gen_theta(rng, dtype, B, n, V):
@@ -840,3 +1065,421 @@ def gen_est(rng, kind=None, small=False):
             case["given_lead"] = rng.random() < 0.5
         case["us"] = [[rng.randint(0, 63) for _ in range(B)] for _ in range(N)]
     return case
+
+
+# =========================================================================================
+# relations the property states, run on the implementation alone (quadrature grid, extreme uniforms)
+# =========================================================================================
+def _mid(K):
+    return (torch.arange(K, dtype=F64) * 2 + 1) / (2 * K)
+
+
+def grid_run(case):
+    """returns list of (name, ok, detail)"""
+    from pydrobert.torch import distributions as PD
+    from pydrobert.torch import estimators as E
+
+    op, out = case["op"], []
+    if op == "st_bern":  # exact: (1 - p) K is an integer, midpoints never hit the threshold
+        K, a = 64, case["a"]
+        f0, f1 = case["f"][0] / 4, case["f"][1] / 4
+        d = PD.LogisticBernoulli(**{case["param"]: _bern_param(case["param"], a).expand(K)})
+        with mock.patch.object(torch, "rand", lambda *s, **k: _mid(K).reshape(1, K)):
+            v = E.StraightThroughEstimator(d, lambda b: f0 + (f1 - f0) * b, 1)()
+        exact = (1 - a / 16) * f0 + a / 16 * f1
+        out.append(("straight-through mean over the uniform grid == exact expectation",
+                    abs(float(v.mean()) - exact) < 1e-12, [float(v.mean()), exact]))
+    elif op == "relax_bern":
+        K, a = 64, case["a"]
+        f0, f1 = case["f"][0] / 4, case["f"][1] / 4
+        U, V = torch.meshgrid(_mid(K), _mid(K), indexing="ij")
+        d = PD.LogisticBernoulli(**{case["param"]: _bern_param(case["param"], a).expand(K * K)})
+        eta, w, temp = case["eta"] / 4, case["w"] / 4, case["temp"] / 4
+        cv = lambda z: eta * w * torch.sigmoid(z / temp)  # noqa: E731
+        with mock.patch.object(torch, "rand", lambda *s, **k: U.reshape(1, -1)), \
+                mock.patch.object(torch, "rand_like", lambda x, **k: V.reshape(1, -1)):
+            v = E.RelaxEstimator(d, lambda b: f0 + (f1 - f0) * b, 1, cv)()
+        exact = (1 - a / 16) * f0 + a / 16 * f1
+        tol = 5e-3 * (1 + abs(eta * w))
+        out.append(("RELAX mean over the (u, v) grid == exact expectation (midpoint rule, K = 64)",
+                    abs(float(v.mean()) - exact) < tol, [float(v.mean()), exact, tol]))
+    elif op in ("st_gumbel", "relax_gumbel"):
+        K, Vn = 64, 2
+        pr = torch.tensor(case["p"], dtype=F64) / 16
+        w = torch.tensor(case["f"], dtype=F64) / 4
+        grid = torch.tensor(list(itertools.product(_mid(K).tolist(), repeat=Vn)), dtype=F64)
+        G = grid.shape[0]
+        par = pr if case["param"] == "probs" else pr.log() + case.get("shift", 0) / 4
+        d = PD.GumbelOneHotCategorical(**{case["param"]: par.expand(G, Vn)})
+        f = lambda b: (b * w).sum(-1)  # noqa: E731
+        exact = float((pr * w).sum())
+        if op == "st_gumbel":
+            with mock.patch.object(torch, "rand", lambda *s, **k: grid.unsqueeze(0)):
+                v = E.StraightThroughEstimator(d, f, 1)()
+            tol = 5e-3 * (1 + float(w.abs().sum()))
+        else:
+            eta, temp = case["eta"] / 4, case["temp"] / 4
+            cw = torch.tensor(case["cw"], dtype=F64) / 4
+            cv = lambda z: eta * (torch.softmax(z / temp, -1) * cw).sum(-1)  # noqa: E731
+            perm = torch.randperm(G, generator=torch.Generator().manual_seed(case["perm_seed"]))
+            with mock.patch.object(torch, "rand", lambda *s, **k: grid.unsqueeze(0)), \
+                    mock.patch.object(torch, "rand_like", lambda x, **k: grid[perm].unsqueeze(0)):
+                v = E.RelaxEstimator(d, f, 1, cv)()
+            tol = 2e-2 * (1 + float(w.abs().sum()) + abs(eta) * float(cw.abs().sum()))
+        out.append((op + " mean over the uniform grid == exact expectation (quadrature tolerance)",
+                    abs(float(v.mean()) - exact) < tol, [float(v.mean()), exact, tol]))
+    elif op == "csample_is_rsample":
+        # csample(v, b) is rsample at u = 1 - p + p v (b = 1) or u = (1 - p)(1 - v) (b = 0)
+        K, a = 64, case["a"]
+        p = a / 16
+        d = PD.LogisticBernoulli(**{case["param"]: _bern_param(case["param"], a).expand(K)})
+        v = _mid(K)
+        for b in (0.0, 1.0):
+            u = (1 - p + p * v) if b else (1 - p) * (1 - v)
+            with mock.patch.object(torch, "rand_like", lambda x, **k: v.clone()):
+                zc = d.csample(torch.full((K,), b, dtype=F64))
+            with mock.patch.object(torch, "rand", lambda *s, **k: u.reshape(1, K)):
+                z = d.rsample([1])[0]
+            err = float(((zc - z).abs() / (1 + z.abs())).max())
+            out.append(("conditional relaxed sample == relaxed sample at the mapped uniform", err < 1e-9, [b, err]))
+            out.append(("threshold(csample(b)) == b", bool((d.threshold(zc) == b).all()), [b]))
+    elif op == "extreme":
+        for dt in (torch.float64, torch.float32):
+            eps = torch.finfo(dt).eps
+            vs = torch.tensor([0.0, 1e-30, eps / 2, eps, 2 * eps, 1e-3, 0.5, 1 - 1e-3, 1 - 2 * eps, 1 - eps, 1 - eps / 2], dtype=dt)
+            ps = torch.tensor([0.0, 1e-30, eps, 1e-6, 1 / 16, 0.5, 15 / 16, 1 - 1e-6, 1 - eps, 1.0], dtype=dt)
+            P, V = torch.meshgrid(ps, vs, indexing="ij")
+            d = PD.LogisticBernoulli(probs=P)
+            for b in (0.0, 1.0):
+                Bt = torch.full_like(P, b)
+                with mock.patch.object(torch, "rand_like", lambda x, **k: V.clone()):
+                    zc = d.csample(Bt)
+                out.append(("threshold(csample(b)) == b at extreme uniforms/probabilities (%s)" % dt,
+                            bool((d.threshold(zc) == Bt).all()) and bool(torch.isfinite(zc).all()), [b]))
+            for Vn in (2, 3):
+                pr = torch.tensor([[1 / 16, 15 / 16, 0][:Vn], [1 / 3, 1 / 3, 1 / 3][:Vn], [1e-6, 1 - 2e-6, 1e-6][:Vn],
+                                   [0.0, 1.0, 0.0][:Vn]], dtype=dt)
+                pr = pr / pr.sum(-1, keepdim=True)
+                grid = torch.tensor(list(itertools.product(vs.tolist(), repeat=Vn)), dtype=dt)
+                G = grid.shape[0]
+                d = PD.GumbelOneHotCategorical(probs=pr.unsqueeze(1).expand(-1, G, -1))
+                for k in range(Vn):
+                    Bt = torch.nn.functional.one_hot(torch.tensor(k), Vn).to(dt).expand(pr.shape[0], G, Vn)
+                    with mock.patch.object(torch, "rand_like",
+                                           lambda x, **kw: grid.unsqueeze(0).expand(pr.shape[0], G, Vn).clone()):
+                        zc = d.csample(Bt)
+                    out.append(("threshold(csample(b)) == b at extreme uniforms/probabilities (gumbel, %s)" % dt,
+                                bool((d.threshold(zc) == Bt).all()), [Vn, k]))
+    return out
+
+
+def _bern_param(param, a):
+    p = torch.tensor(a / 16, dtype=F64)
+    return p if param == "probs" else (p / (1 - p)).log()
+
+
+def gen_grid(rng):
+    op = rng.choice(["st_bern", "relax_bern", "st_gumbel", "relax_gumbel", "csample_is_rsample"])
+    case = {"fam": "grid", "op": op, "param": rng.choice(["probs", "logits"]), "a": rng.randint(1, 15),
+            "f": [rng.randint(-12, 12), rng.randint(-12, 12)], "eta": rng.choice([-6, -2, 2, 4, 5]),
+            "w": rng.randint(-8, 8), "temp": rng.choice([2, 4, 6]), "shift": rng.randint(-6, 6)}
+    a = rng.randint(1, 15)
+    case["p"] = [a, 16 - a]
+    case["cw"] = [rng.randint(-8, 8), rng.randint(-8, 8)]
+    case["perm_seed"] = rng.randint(0, 1000)
+    return case
+
+
+# =========================================================================================
+# the check
+# =========================================================================================
+THEOREMS = {
+    "direct": ["c19_direct_unbiased"], "is": ["c19_importance_unbiased"], "enum": ["c19_enumerate_exact"],
+    "st": ["c19_straight_through_value"], "relax": ["c19_relax_value", "c19_relax_mean_exact"],
+    "imh": ["c19_mh_accepts_all_when_equal"],
+    "dist": ["c19_logistic_density_factorises", "c19_gumbel_density_factorises", "c19_logistic_threshold_of_csample",
+             "c19_gumbel_threshold_of_csample"],
+    "comb": ["c19_srswor_cardinality_and_positions", "c19_srswor_uniform", "c19_binomial_is_pascal",
+             "c19_enumerate_vocab_complete", "c19_enumerate_card_complete", "c19_support_sums_to_one"],
+    "grid": ["c19_relax_mean_exact", "c19_logistic_csample_is_rsample"],
+}
+
+
+def evaluate(case):
+    """-> dict(model=[terms], spec=[terms], rel=[(name, ok)], unique=bool, impl=summary)"""
+    fam = case["fam"]
+    if fam == "est":
+        k = case["kind"]
+        if k in ("direct", "is"):
+            res = est_run_impl(case)
+            mt, st = est_terms(case, res)
+            rel = [("no exception", res["exc"] is None)]
+            return dict(model=mt, spec=st, rel=rel, unique=False, impl={"exc": res["exc"], "out": res["out"][:4]})
+        if k == "enum":
+            res = enum_run_impl(case)
+            mt, st = enum_terms(case, res)
+            return dict(model=mt, spec=st, rel=[("no exception", res["exc"] is None)], unique=True,
+                        impl={"exc": res["exc"], "out": res["out"]})
+        if k in ("st", "relax"):
+            res = relaxed_run_impl(case)
+            mt, st = relaxed_terms(case, res)
+            rel = [("no exception", res["exc"] is None)]
+            if res["exc"] is None:
+                rel += _relaxed_value_relation(case, res)
+            return dict(model=mt, spec=st, rel=rel, unique=(k == "st"), impl={"exc": res["exc"], "out": res.get("out")})
+        res = imh_run_impl(case)
+        rel = []
+        if case["same"]:
+            rel = _imh_same_relation(case, res)
+        return dict(model=[imh_model_term(case, res)], spec=[], rel=rel, unique=False,
+                    impl={"exc": res["exc"], "out": res.get("out"), "calls": res["calls"]})
+    if fam == "dist":
+        res = dist_run_impl(case)
+        mt, rel = dist_terms(case, res)
+        return dict(model=mt, spec=[], rel=rel, unique=False, impl={"exc": res["exc"], "z": res.get("z"), "zc": res.get("zc")})
+    if fam == "comb":
+        res = comb_run_impl(case)
+        mt, st, rel = comb_terms(case, res)
+        return dict(model=mt, spec=st, rel=rel, unique=False, impl=res)
+    if fam == "grid":
+        r = grid_run(case)
+        return dict(model=[], spec=[], rel=[(n, ok) for n, ok, _ in r], unique=False, impl=[d for _, _, d in r])
+    raise ValueError(fam)
+
+
+def _relaxed_value_relation(case, res):
+    """value of the estimate == mean_n f(b_n) [- cv(zcond_n) + cv(z_n)] on the implementation's own pieces"""
+    B, M = case["B"], case["M"]
+    out = []
+    for j in range(B):
+        fval, _ = _table_fr(case, "f", j)
+        tot = 0.0
+        for m in range(M):
+            tot += float(fval[res["idx"][m][j]])
+            if case["kind"] == "relax":
+                pz, pzc = res["pieces"][m][j]
+                tot += pz[0] - pzc[0]
+        want = tot / M
+        out.append(("relaxed estimate == sample mean of f(b) - cv(zcond) + cv(z)",
+                    abs(res["out"][j][0] - want) <= 1e-9 * (1 + abs(want))))
+    return out
+
+
+def _imh_same_relation(case, res):
+    """proposal == target: every proposal is accepted and the estimate is the plain post-burn-in average.
+    The starting point (drawn: first draw, since every outcome is in the support; or handed) is not counted."""
+    if res["exc"] is not None:
+        return [("no exception when proposal and target coincide: " + res["exc"], False)]
+    B, N, burn = case["B"], case["N"], case["burn"]
+    used = 0 if case["given"] is not None else 1
+    out = [("number of proposal draws", res["calls"] == used + N)]
+    for j in range(B):
+        fval, _ = _table_fr(case, "f", j)
+        chain = [case["draws"][used + n][j] for n in range(N)]
+        want = float(sum(fval[i] for i in chain[burn:]) / (N - burn))
+        out.append(("plain post-burn-in average", abs(res["out"][j] - want) <= 1e-9 * (1 + abs(want))))
+    return out
+
+
+def nontrivial(case):
+    fam = case["fam"]
+    if fam == "est":
+        if case["kind"] in ("direct", "is"):
+            return case["V"] ** case["n"] >= 2 and case["M"] >= 1
+        if case["kind"] == "imh":
+            return case["N"] >= 2
+        return True
+    if fam == "comb":
+        if case["op"] == "srswor":
+            return any(0 < g < t for g, t in zip(case["given"], case["total"]))
+        if case["op"] == "binom":
+            return any(0 < k < n for n, k in zip(case["lens"], case["cnts"]))
+        if case["op"] in ("srswor_dist",):
+            return 0 < case["given"] < case["total"]
+        return True
+    return True
+
+
+def _exhaustive_est(tier):
+    """deterministic small-scope list: every estimator kind x parameterisation x variable structure x N"""
+    rng = __import__("random").Random(190019)
+    structs = [("bern", 1, 2), ("bern", 2, 2), ("bern", 3, 2), ("cat", 1, 2), ("cat", 1, 3), ("onehot", 1, 3),
+               ("cat", 2, 2), ("onehot", 2, 2)]
+    cases = []
+    for kind, opt in (("direct", "nocv"), ("direct", "cv"), ("is", "plain"), ("is", "selfnorm")):
+        for param in ("probs", "logits"):
+            for dtype, n, V in structs:
+                for M in (1, 2):
+                    if V ** n > 4 and M == 2 and tier == "quick":
+                        continue
+                    for is_log in (False, True):
+                        if is_log and (M == 2 or n > 1):
+                            continue
+                        B = 1 + (len(cases) % 2)
+                        nout, K = V ** n, (n if dtype == "bern" else n * V)
+                        c = {"fam": "est", "kind": kind, "param": param, "phi": rng.randint(-8, 8), "shift": rng.randint(-6, 6),
+                             "B": B, "dtype": dtype, "n": n, "V": V, "M": M, "is_log": is_log,
+                             "cv": opt == "cv", "self_norm": opt == "selfnorm", "theta": _gen_theta(rng, dtype, B, n, V)}
+                        if is_log:
+                            _gen_table(rng, c, "f", B, nout, K, 40, 80)
+                            _gen_table(rng, c, "c", B, nout, K, 4, 12, dep=False)
+                        else:
+                            _gen_table(rng, c, "f", B, nout, K)
+                            _gen_table(rng, c, "c", B, nout, K)
+                        if kind == "is":
+                            c["qtheta"] = _gen_theta(rng, dtype, B, n, V)
+                        cases.append(c)
+    return cases
+
+
+def _exhaustive_srswor(tmax):
+    """every (total, given) with total <= tmax and every Bernoulli outcome script: u = 0 takes a one whenever
+    p > 0, u = 63/64 refuses unless p = 1; all scripts over {0, 63/64} as batch elements of one call"""
+    cases = []
+    for T in range(1, tmax + 1):
+        for L in range(0, T + 1):
+            scripts = list(itertools.product([0, 63], repeat=T))
+            for lo in range(0, len(scripts), 16):
+                chunk = scripts[lo:lo + 16]
+                cases.append({"fam": "comb", "op": "srswor", "total": [T] * len(chunk), "given": [L] * len(chunk),
+                              "out_size": T, "via": "func", "us": [[s[t] for s in chunk] for t in range(T)]})
+    return cases
+
+
+def gen_cases(chk):
+    quick = chk.tier != "thorough"
+    cases = []
+    ex = _exhaustive_est(chk.tier)
+    if quick:
+        ex = ex[::3]
+    for c in ex:
+        c["stream"] = "exhaustive-slice" if quick else "exhaustive"
+    cases += ex
+    sr = _exhaustive_srswor(4 if quick else 6)
+    for c in sr:
+        c["stream"] = "exhaustive-slice" if quick else "exhaustive"
+    cases += sr
+    cases.append({"fam": "grid", "op": "extreme", "stream": "grid"})
+    for a in (range(1, 16) if not quick else (1, 5, 8, 13)):
+        for param in ("probs", "logits"):
+            cases.append({"fam": "grid", "op": "st_bern", "param": param, "a": a, "f": [-4 + a, 7 - 2 * a], "stream": "grid"})
+            cases.append({"fam": "grid", "op": "csample_is_rsample", "param": param, "a": a, "stream": "grid"})
+    chk.extra["exhaustive"] = not quick
+    chk.extra["exhaustive_scope"] = (
+        "estimators: {direct, direct+cv, importance, self-normalised} x {probs, logits} x {1-3 Bernoulli, 1-2 categorical "
+        "(V<=3), one-hot} x N in {1,2} (+ log-space, N=1), every sample tuple of the whole space per case; "
+        "cardinality sampling: every total<=%d, given<=total, every Bernoulli outcome script" % (4 if quick else 6))
+    for c in load_corpus("C19"):
+        c = dict(c.get("case", c))
+        c["stream"] = "corpus"
+        cases.append(c)
+    rng = chk.rng
+    n_est, n_dist, n_comb, n_grid = (45, 30, 160, 8) if quick else (700, 400, 3000, 60)
+    for _ in range(n_est):
+        c = gen_est(rng, small=quick)
+        c["stream"] = "random"
+        cases.append(c)
+    for _ in range(n_dist):
+        c = gen_dist(rng)
+        c["stream"] = "random"
+        cases.append(c)
+    for _ in range(n_comb):
+        c = gen_comb(rng)
+        c["stream"] = "random"
+        cases.append(c)
+    for _ in range(n_grid):
+        c = gen_grid(rng)
+        c["stream"] = "grid"
+        cases.append(c)
+    return cases
+
+
+def _key(case):
+    fam = case["fam"]
+    return fam + ":" + (case.get("kind") or case.get("op") or case.get("dtype") or "")
+
+
+def run(chk, cases=None):
+    chk.rule = (
+        "est: one case = estimator kind + distribution (B batch elements x n variables, probs or logits) + tables for f / control "
+        "variate / target; the implementation is called once per sample tuple of the WHOLE space (proposal.sample patched), value and "
+        "autograd gradient w.r.t. every parameter are compared with the model's dual number per tuple, and the probability-weighted "
+        "sum over the space is compared with the exact expectation and gradient (Spec.unbiased_okb). dist: rsample/threshold/csample/"
+        "log_prob/tlog_prob/clog_prob on scripted uniforms vs the fixed-point instance of the formulas. comb: sampler on scripted "
+        "Bernoulli outcomes, binomial, enumerations vs the model and the boolean specs. non-trivial = sample space of >= 2 outcomes / "
+        "0 < given < total / 0 < count < length")
+    chk.assumptions += [
+        "regime T: sigmoid/softmax of the chosen logits equal a/16 to 1e-13 (asserted per case); model tables are exact rationals, "
+        "implementation outputs are float64 compared with tolerance 1e-8 (fixed-point formulas: 1e-9)",
+        "autograd itself is trusted; for RELAX the dual numbers of cv(z), cv(zcond) are taken from autograd on those sub-expressions",
+        "torch.rand / rand_like / bernoulli and proposal.sample are replaced by scripted values (monkeypatching from the harness only)",
+        "zero-probability outcomes are excluded (REINFORCE gradients are not unbiased on the boundary of the simplex)",
+        "is_log=True is checked through exp(estimate) and its gradient against the linear-space model (no clamping regime)",
+    ]
+    cases = cases if cases is not None else gen_cases(chk)
+    evs, terms, where = [], [], []
+    for ci, c in enumerate(cases):
+        stream = c.pop("stream", "random")
+        try:
+            ev = evaluate(c)
+        except AssertionError as e:
+            ev = dict(model=["false"], spec=[], rel=[("harness assertion: " + str(e)[:200], False)], unique=False, impl=None)
+        evs.append(ev)
+        chk.note_case(c, nontrivial(c), stream)
+        chk.count(_key(c))
+        for opt in ("param", "M", "B", "is_log", "cv", "self_norm", "same"):
+            if opt in c:
+                chk.count(f"{opt}={c[opt]}")
+        if c["fam"] == "est" and c["kind"] == "imh":
+            chk.count("imh_given=" + str(c["given"] is not None))
+            chk.count("imh_outcome=" + ("error" if ev["impl"]["exc"] else "ok"))
+        if c["fam"] == "comb":
+            chk.count("comb_outcome=" + ("error" if ev["impl"].get("exc") else "ok"))
+        for t in ev["model"]:
+            terms.append(t)
+            where.append((ci, "model"))
+        for t in ev["spec"]:
+            terms.append(t)
+            where.append((ci, "spec"))
+    res = coq_eval_bools(chk.workdir, IMPORTS, terms, shard=40)
+    bad_model, bad_spec = {}, {}
+    for ok, (ci, kind), t in zip(res, where, terms):
+        if not ok:
+            (bad_model if kind == "model" else bad_spec).setdefault(ci, []).append(t)
+    bad_rel = {ci: [n for n, ok in ev["rel"] if not ok] for ci, ev in enumerate(evs) if any(not ok for _, ok in ev["rel"])}
+    chk.extra["model_disagreements"] = len(bad_model)
+    chk.extra["coq_terms"] = len(terms)
+    concrete = sorted(set(bad_spec) | set(bad_rel) | {ci for ci in bad_model if evs[ci]["unique"]})
+    nfi = sorted(set(bad_model) - set(concrete))
+    for ci in concrete[:6]:
+        c = cases[ci]
+        fam = c["fam"] if c["fam"] != "est" else c["kind"]
+        rec = {"case": c, "impl": evs[ci]["impl"], "kind": _key(c),
+               "failed_relations": bad_rel.get(ci, []),
+               "failed_spec_terms": [t[:1500] for t in bad_spec.get(ci, [])[:2]],
+               "failed_model_terms": [t[:1500] for t in bad_model.get(ci, [])[:2]],
+               "model": "see failed_model_terms (each is a closed Coq term of type bool: model output vs implementation output)",
+               "correspondence": CORR + _key(c), "theorems_at_stake": THEOREMS.get(fam, []),
+               "what": "implementation output violates the property: " + "; ".join(
+                   bad_rel.get(ci, []) or (["space average of value/gradient differs from the exact expectation/gradient"]
+                                            if ci in bad_spec and c["fam"] == "est" else
+                                            ["boolean spec rejects the output" if ci in bad_spec else
+                                             "output differs from the model, which is proved to be the unique correct answer"]))}
+        chk.report(rec)
+    if nfi and not concrete:
+        ci = nfi[0]
+        c = cases[ci]
+        fam = c["fam"] if c["fam"] != "est" else c["kind"]
+        chk.report({"case": c, "impl": evs[ci]["impl"], "kind": _key(c),
+                    "failed_model_terms": [t[:1500] for t in bad_model[ci][:2]],
+                    "correspondence": CORR + _key(c), "theorems_at_stake": THEOREMS.get(fam, []),
+                    "n_disagreeing_cases": len(nfi),
+                    "what": "implementation differs from the model but every explored output satisfies the property's reading"},
+                   no_failing_input=True)
+
+
+def replay(chk, path):
+    rec = json.loads(open(path).read())
+    case = dict(rec["case"])
+    case.setdefault("stream", "replay")
+    run(chk, [case])
